@@ -45,10 +45,11 @@ class Func:
         return "<Func %s>" % self.qual
 
     def is_generator(self):
-        for n in walk_local(self.node):
-            if isinstance(n, (ast.Yield, ast.YieldFrom)):
-                return True
-        return False
+        g = getattr(self, "_isgen", None)
+        if g is None:
+            g = any(isinstance(n, (ast.Yield, ast.YieldFrom)) for n in walk_local(self.node))
+            self._isgen = g
+        return g
 
 
 def walk_local(node):
